@@ -173,7 +173,7 @@ func serviceQuery(be filters.Backend, client *rpcclient.Client, q *query) ([]*ty
 	ctx, cancel := context.WithTimeout(context.Background(), 10*time.Minute)
 	defer cancel()
 	if q.Via == "filter" {
-		return filters.New(be, q.Begin, q.End, q.Addrs, q.Topics).Logs(ctx)
+		return filters.New(be, q.Begin, q.End, q.Addrs, q.effTopics()).Logs(ctx)
 	}
 	var raw json.RawMessage = q.jsonCriteria()
 	var out []*types.Log
